@@ -1,5 +1,7 @@
 import RedactVerif.Props.L2
 import RedactVerif.Props.FactsClassify
+import RedactVerif.Proofs.U.Top
+import RedactVerif.Proofs.S.Top
 /-
 C06 — Unsafe(x) envelopes all of x; Safe(x) envelopes none; outermost wins.
 
@@ -15,10 +17,18 @@ print.go / helpers.go byte for byte by the P-model correspondence):
 * nested printers inherit the override (`nested_inherits`, the D3 fix) and
   `doPrint/doPrintf` do not leave unsafe mode under it (`doPrint_keeps_unsafe`).
 
-FULL STATEMENT (not yet proved): "the rendering of Unsafe(x) lies entirely
-inside envelopes / Safe(x) contains no envelope, with fmt's characters". It
-needs the buffer-level equalities (C09) lifted through the printer; the
-real-code oracle P-wrappers decides it on generated cases.
+END TO END (proved, for every value of the model's universe, every user method script,
+every verb, every fuel — `Proofs/U`, `Proofs/S`: the induction of the frame theorem over the 21
+functions of the printer, repeated under each override):
+* `unsafe_operand_enveloped` / `sprint_unsafe_all_enveloped`: printing `Unsafe(x)` adds nothing
+  but line feeds outside envelopes — also when `x` contains safe values, `Safe(…)`,
+  redactable strings, SafeFormatters, formatters, errors, panicking methods;
+* `safe_operand_no_envelope` / `sprint_safe_no_marker`: printing `Safe(x)`, for `x` without a
+  redactable operand, opens no envelope and leaves every earlier envelope as it was; the
+  output of `Sprint(Safe(x))` contains no marker at all.
+NOT proved here: "the characters are those fmt prints for x" — the model writes what the
+fork of fmt writes by construction; that the fork agrees with fmt is decided by the real-code
+oracle P-wrappers (and C04's differential check) on generated cases.
 -/
 namespace Redact
 
@@ -61,5 +71,55 @@ theorem unsafe_redactable_not_raw (p : PP) (content : List Byte) (h : p.override
 theorem doPrint_keeps_unsafe (env : Env) (n : Nat) (p : PP) (args : List Val) (h : p.override = .ovUnsafe) :
     doPrint env (n + 1) p args = doPrintLoop env n p args 0 false := by
   simp [doPrint, h]
+
+/-! ### End to end -/
+
+/-- **`Unsafe(x)` as an operand**: from a printer without override, in safe mode, whose text so
+far does not end in a truncated character, printing `Unsafe(x)` returns with the buffer closed
+and fully validated, and outside envelopes only line feeds were added (`fT` reads the text outside
+envelopes of a fully validated buffer; `finalize` is what the output would have been without the operand). -/
+theorem unsafe_operand_enveloped (env : Env) (he : EnvOk env) (n : Nat) (p : PP) (v : Val) (verb : Nat)
+    (hp : Pre p) (ho : p.override = .no) (hm : p.buf.mode ≠ .unsafeEsc)
+    (hT : tailBad p.buf.finalize.buf = false) (hv : ValOk v) (q : PP)
+    (h : printArg env (n + 1) p (.unsafeW v) verb = .ok q) :
+    q.buf.validUntil = q.buf.buf.length ∧ q.buf.markerOpen = false ∧
+      ∃ l, OnlyLFs l ∧ U.fT q.buf = U.fT p.buf.finalize ++ l :=
+  (U.unsafe_operand env he n p v verb hp ho hm hT hv q h).2.2.2
+
+/-- **`Sprint(Unsafe(x))`: dropping the envelopes of the output leaves line feeds only.** -/
+theorem sprint_unsafe_all_enveloped (env : Env) (he : EnvOk env) (v : Val) (hv : ValOk v) (q : PP)
+    (h : sprint env [.unsafeW v] = .ok q) :
+    ∀ t ∈ dropEnvT (tokenize q.buf.redactableBytes), t = .b LF := by
+  have h1 := U.sprint_unsafe_enveloped env he v hv defaultFuel q h
+  have ⟨ob, _⟩ := doPrint_out env he defaultFuel newPP pre_newPP [.unsafeW v]
+    (fun x hx => by simp only [List.mem_singleton] at hx; subst hx; simpa [ValOk] using hv) q h
+  unfold dropEnvT
+  rw [(dropEnv_eq_safeText _).1 (scanWF_of_scan _ _ _ ob.2)]
+  exact h1
+
+/-- **`Safe(x)` as an operand** (`x` without a redactable operand, `S.ValOk`): the validated prefix
+of the buffer — every envelope written so far — is untouched, and the printer is back in safe mode. -/
+theorem safe_operand_no_envelope (env : Env) (he : S.EnvOk env) (n : Nat) (p : PP) (v : Val) (verb : Nat)
+    (hp : Pre p) (ho : p.override = .no) (hm : p.buf.mode = .safeEsc) (hv : S.ValOk v) (q : PP)
+    (h : printArg env (n + 1) p (.safeW v) verb = .ok q) :
+    q.buf.mode = .safeEsc ∧ q.override = .no ∧ q.buf.pre = p.buf.pre :=
+  (S.safe_operand env he n p v verb hp ho hm hv q h).2
+
+/-- **`Sprint(Safe(x))` contains no marker.** -/
+theorem sprint_safe_no_marker (env : Env) (he : S.EnvOk env) (v : Val) (hv : S.ValOk v) (q : PP)
+    (h : sprint env [.safeW v] = .ok q) :
+    ∀ t ∈ tokenize q.buf.redactableBytes, t.isMarker = false :=
+  S.sprint_safe_no_envelope env he v hv defaultFuel q h
+
+/-! Premises satisfiable: a `Safe(string)` inside `Unsafe(…)`, and an `Unsafe(Safe(string))` inside `Safe(…)`.
+(The model prints `Unsafe(Safe("a\nb"))` as `‹a›\n‹b›` and `Safe(Unsafe(Safe("a\nb")))` as `a\nb`: `#eval` in the driver.) -/
+def exEnv6 : Env := { render := fun _ _ => some [0x61, 0x0A, 0x62], hook := none }
+def exV6 : Val := .safeW (.leaf 0 .str "string".toUTF8.toList none false false)
+example : EnvOk exEnv6 ∧ S.EnvOk exEnv6 ∧ ValOk exV6 ∧ S.ValOk (.unsafeW exV6) := by
+  refine ⟨?_, ?_, ?_, ?_⟩
+  · intro h hh; cases hh
+  · intro h hh; cases hh
+  · simp [exV6, ValOk]
+  · simp [exV6, S.ValOk]
 
 end Redact
